@@ -1,30 +1,41 @@
 (* C08 driver.  Harness line:
-     (c08 KIND (dag (f ID (DEP...))...) (res MODE TREE TREE TREE)...)
+     (c08 KIND (dag (f ID (DEP...) SRC)...) (res MODE TREE TREE TREE)...)
+   SRC = - | (DS ENV); TREE leaves are (S id (deps) (merged ids)).
    For every mode: the three implementation runs must agree (spec clause [deterministic]);
    the model's tree must equal the implementation's (corr:C08/tree); and the spec checkers
-   extracted from Coq are evaluated on the IMPLEMENTATION's tree: [respects_deps_b],
-   [exactly_once_b], plus the direct reading [run_respects_b] on two concrete executions of it. *)
+   extracted from Coq are evaluated on the IMPLEMENTATION's tree.  Always, against the planner's
+   ORIGINAL per-fetch dependencies: [respects_member_deps_b] (a merged node stands for its members)
+   and [members_once_b].  Without the MultiFetch stage also, on the tree's own records:
+   [respects_deps_b], [exactly_once_b], and [run_respects_b] on two concrete executions. *)
 let nat i = nat_of_int i
 let rec show_tree (t : tree) : string =
   match t with
   | Single f ->
-    Printf.sprintf "(S %d (%s))" (int_of_nat f.fid)
-      (String.concat " " (List.map (fun d -> string_of_int (int_of_nat d)) f.fdeps))
+    let nums l = String.concat " " (List.map (fun d -> string_of_int (int_of_nat d)) l) in
+    Printf.sprintf "(S %d (%s) (%s))" (int_of_nat f.fid) (nums f.fdeps) (nums f.fmerged)
   | Sequence ts -> "(" ^ String.concat " " ("Q" :: List.map show_tree ts) ^ ")"
   | Parallel ts -> "(" ^ String.concat " " ("P" :: List.map show_tree ts) ^ ")"
 
 exception Bad_tree of string
-let rec tree_of_sexp (x : sexp) : tree =
+let nats l = List.map (fun d -> nat (int_of_string (atom d))) l
+(* [src]: the merge-candidate attribute is an input attribute that no stage rewrites and the tree
+   dump does not repeat; an unmerged leaf takes it from the plan entry with its id *)
+let rec tree_of_sexp (src : int -> (nat * nat) option) (x : sexp) : tree =
   match x with
-  | L [A "S"; A id; L deps] ->
-    Single { fid = nat (int_of_string id); fdeps = List.map (fun d -> nat (int_of_string (atom d))) deps }
-  | L (A "Q" :: cs) -> Sequence (List.map tree_of_sexp cs)
-  | L (A "P" :: cs) -> Parallel (List.map tree_of_sexp cs)
+  | L [A "S"; A id; L deps; L merged] ->
+    let i = int_of_string id in
+    Single { fid = nat i; fdeps = nats deps; fmerged = nats merged;
+             fsrc = (if merged = [] then src i else None) }
+  | L (A "Q" :: cs) -> Sequence (List.map (tree_of_sexp src) cs)
+  | L (A "P" :: cs) -> Parallel (List.map (tree_of_sexp src) cs)
   | _ -> raise (Bad_tree (print_sexp x))
 
 let fetch_of_sexp = function
-  | L [A "f"; A id; L deps] ->
-    { fid = nat (int_of_string id); fdeps = List.map (fun d -> nat (int_of_string (atom d))) deps }
+  | L [A "f"; A id; L deps; src] ->
+    { fid = nat (int_of_string id); fdeps = nats deps; fmerged = [];
+      fsrc = (match src with
+              | L [A d; A e] -> Some (nat (int_of_string d), nat (int_of_string e))
+              | _ -> None) }
   | x -> raise (Sexp_error ("fetch expected: " ^ print_sexp x))
 
 (* fork: an in-list fetch that at least two fetches depend on; join: a fetch with at least two
@@ -42,7 +53,8 @@ let handle (x : sexp) : (string * string) list =
     let l = List.map fetch_of_sexp fs in
     let res = ref [] in
     let add st d = res := (st, d) :: !res in
-    let wellformed = unique_ids_b l && acyclic_b l in
+    let wellformed = unique_ids_b l && acyclic_b l && plain_b l in
+    let src i = match List.find_opt (fun f -> int_of_nat f.fid = i) l with Some f -> f.fsrc | None -> None in
     if kind = "dag" && not wellformed then add "error" "generator: plan is not acyclic with unique ids";
     List.iter (fun r ->
       match r with
@@ -55,16 +67,21 @@ let handle (x : sexp) : (string * string) list =
           | "s" -> true, false, false
           | "m" -> true, true, false
           | "t" -> true, false, true
+          | "M" -> false, true, false
           | m -> raise (Sexp_error ("mode " ^ m)) in
         let model = match organize sched multi trig l with
           | Done t -> show_tree t
           | OutOfFuel -> "(out-of-fuel)" in
         if model = "(out-of-fuel)" then add "error" ("model out of fuel mode=" ^ mode)
         else if model <> s1 then add "mismatch" (Printf.sprintf "corr:C08/tree mode=%s impl=%s model=%s" mode s1 model);
-        (match (try Some (tree_of_sexp t1) with Bad_tree _ -> None) with
+        (match (try Some (tree_of_sexp src t1) with Bad_tree _ -> None) with
          | None -> add "specfail" (Printf.sprintf "total mode=%s implementation returned %s" mode s1)
          | Some t ->
            if kind = "dag" then begin
+             if not (members_once_b t l) then add "specfail" (Printf.sprintf "members_once mode=%s tree=%s" mode s1);
+             if not (respects_member_deps_b t l) then add "specfail" (Printf.sprintf "respects_member_deps mode=%s tree=%s" mode s1)
+           end;
+           if kind = "dag" && not multi then begin
              if not (exactly_once_b t l) then add "specfail" (Printf.sprintf "exactly_once mode=%s tree=%s" mode s1);
              if not (respects_deps_b t) then add "specfail" (Printf.sprintf "respects_deps mode=%s tree=%s" mode s1)
              else if not (run_respects_b l (run_lr t) && run_respects_b l (run_rl t)) then
